@@ -14,8 +14,8 @@ FEATURES_I = [{'gen'}, {'gen', 'co'}, {'co'}, {'gen', 'rec'}, {'gen', 'straddle'
 
 
 def run(tier, seed):
-    res = e1common.run_property(PROP, MODULE, THEOREMS, tier, seed, 80, 3000, FEATURES_T, 'hits', threads=True, ticks=(0,))
-    res2 = e1common.run_property(PROP, MODULE, THEOREMS, tier, seed + 1, 80, 3000, FEATURES_I, 'hits', ticks=(0,))
+    res = e1common.run_property(PROP, MODULE, THEOREMS, tier, seed, 80, 8000, FEATURES_T, 'hits', threads=True, ticks=(0,))
+    res2 = e1common.run_property(PROP, MODULE, THEOREMS, tier, seed + 1, 80, 8000, FEATURES_I, 'hits', ticks=(0,))
     res.mismatches += res2.mismatches
     res.spec_fails += res2.spec_fails
     res.infra_errors += res2.infra_errors
